@@ -373,7 +373,28 @@ pub fn content_class(rng: &mut Rng, class: u32, n: usize) -> Vec<u8> {
             v.truncate(n);
             v
         }
+        10 => {
+            // host-name-like text: letters, digits, hyphens and dots, with the shapes a label-wise
+            // check trips over (empty labels, leading / trailing dots and hyphens, only dots)
+            let mut v: Vec<u8> = (0..n)
+                .map(|_| match rng.below(10) {
+                    0..=2 => b'.',
+                    3 => b'-',
+                    4 => b'0' + rng.below(10) as u8,
+                    _ => b'a' + rng.below(26) as u8,
+                })
+                .collect();
+            if n >= 2 && rng.chance(1, 2) {
+                let i = rng.usize(n - 1);
+                v[i] = b'.';
+                v[i + 1] = b'.';
+            }
+            if n >= 1 && rng.chance(1, 2) {
+                v[0] = b'a' + rng.below(26) as u8;
+            }
+            v
+        }
         _ => rng.bytes(n),
     }
 }
-pub const CONTENT_CLASSES: u32 = 10;
+pub const CONTENT_CLASSES: u32 = 11;
